@@ -197,6 +197,52 @@ def scenario(ctx, res, seed, conf, order, label):
         klog.close()
 
 
+def asymmetric_policies(ctx, res):
+    """the two ends' policies are compatible but not mirror images of each other (one end protects any protocol between hosts, the other TCP
+    to one port between wider networks, ...): whatever is negotiated, the two kernels must be given the SAME selector for each SA"""
+    rng = ctx.rng
+    cases = [
+        ({'mode': 'tunnel', 'ip_proto': 'any', 'ip_proto_b': 'tcp', 'port': 0, 'port_b': 23, 'subnets': ('10.1.0.5/32', '10.2.0.9/32'),
+          'subnets_b': ('10.1.0.0/16', '10.2.0.9/32')}, ('A', 40000, 23, 6)),
+        ({'mode': 'tunnel', 'ip_proto': 'any', 'ip_proto_b': 'udp', 'port': 0, 'port_b': 53, 'subnets': ('10.1.0.0/24', '10.2.0.0/24'),
+          'subnets_b': ('10.1.0.0/16', '10.2.0.0/28')}, ('A', 40001, 53, 17)),
+        ({'mode': 'tunnel', 'ip_proto': 'tcp', 'ip_proto_b': 'any', 'port': 23, 'port_b': 0, 'subnets': ('10.1.0.0/16', '10.2.0.9/32'),
+          'subnets_b': ('10.1.0.5/32', '10.2.0.9/32')}, ('B', 23, 40002, 6)),
+        ({'mode': 'transport', 'ip_proto': 'any', 'ip_proto_b': 'tcp', 'port': 0, 'port_b': 23}, ('A', 40003, 23, 6)),
+        # host to host / any protocol at one end; TCP to one port from a wider network at the other: neither policy contains the other
+        ({'mode': 'transport', 'ip_proto': 'any', 'ip_proto_b': 'tcp', 'port': 0, 'port_b': 23,
+          'subnets_b': ('192.168.0.0/24', '192.168.0.2/32')}, ('A', 40005, 23, 6)),
+        ({'mode': 'tunnel', 'ip_proto': 'any', 'ip_proto_b': 'tcp', 'port': 0, 'port_b': 23,
+          'subnets_b': ('192.168.0.0/24', '192.168.0.2/32')}, ('A', 40006, 23, 6)),
+        ({'mode': 'transport', 'ip_proto': 'tcp', 'ip_proto_b': 'any', 'port': 23, 'port_b': 0}, ('A', 40004, 23, 6)),
+    ]
+    for conf, (who, sport, dport, proto) in cases:
+        for first_plain in (False, True):
+            seed = rng.randrange(1 << 30)
+            klog = KeymatLog()
+            try:
+                with CP.History(seed, trace=False, **conf) as h:
+                    h.oracles = [CP.o_no_escape, CP.o_sad_equals_tracked]
+                    rep = {'seed': seed, 'conf': {k: str(v) for k, v in conf.items()}, 'acquire': [who, sport, dport, proto]}
+                    res.evaluations += 1
+                    res.nontrivial.add(('asymmetric', str(sorted(conf.items())), first_plain))
+                    if first_plain:
+                        h.op('acquire', who, 8765)                              # the first CHILD_SA from the policy as it is
+                        h.settle(60)
+                    ep = h.w.A if who == 'A' else h.w.B
+                    prot = list(ep.configuration.ike_configurations.values())[0].protect[0]
+                    h.op('acquire', who, sport, prot.index, dport, proto)       # ... and one for a packet of one protocol and port
+                    h.settle(60)
+                    n = sum(len(x.child_sas) for x in h.w.A.sas())
+                    res.count('asymmetric-policies:%d-child-sas' % n)
+                    if oracle(h, res, 'asymmetric policies', rep, klog):
+                        continue
+                    for key, what_, at in h.findings[:2]:
+                        res.fail(key, what_, dict(rep, ops=S.ser_ops(h.ops[:at + 1])))
+            finally:
+                klog.close()
+
+
 def run(ctx):
     res = Result()
     rng = ctx.rng
@@ -248,6 +294,7 @@ def run(ctx):
         scenario(ctx, res, rng.randrange(1 << 30), conf, order, label)
         if k < 2:
             res.sample({'conf': {a: str(b) for a, b in conf.items()}, 'order': order})
+    asymmetric_policies(ctx, res)
     return res
 
 
